@@ -108,6 +108,13 @@ pub fn one_run(prop: &str, profile: &Profile, base: u64, index: u64, keep: bool,
     let seed = derive_seed(base, prop, index);
     let mut p = profile.clone();
     if tier_scale > 1 {
+        // thorough: longer histories, and every fourth run uses the general mix of actors
+        // (keeping the property's probes) instead of the property's own profile
+        if index % 4 == 3 {
+            let base = profile_for("mixed");
+            p.actors = base.actors;
+            p.n_pairs = (p.n_pairs.0.max(1), p.n_pairs.1.max(base.n_pairs.1));
+        }
         p.ticks = (p.ticks.0, p.ticks.1 * 3 / 2);
     }
     let mut r = Runner::new(seed, p);
@@ -160,6 +167,142 @@ fn reproduces(world: &WorldCfg, events: &[Event], prop: &str, clause: &str, caus
         .find(|v| v.prop == prop && v.clause == clause && v.cause == cause)
 }
 
+/// which pair index (if any) each event created, learned by replaying
+fn pair_ordinals(world: &WorldCfg, events: &[Event]) -> Vec<Option<usize>> {
+    let mut sim = Sim::new(world);
+    let mut cov = Cover::default();
+    let mut out = vec![];
+    for ev in events {
+        let before = sim.model.pairs.len();
+        sim.step(ev, &mut cov);
+        out.push(if sim.model.pairs.len() > before { Some(before) } else { None });
+    }
+    out
+}
+
+/// rewrite every pair / LP index in a JSON-encoded event; None if it refers to `removed`
+fn remap_value(v: &mut serde_json::Value, removed: usize) -> bool {
+    match v {
+        serde_json::Value::Object(m) => {
+            for (k, x) in m.iter_mut() {
+                if (k == "pair" || k == "lp") && x.is_u64() {
+                    let i = x.as_u64().unwrap() as usize;
+                    if i == removed {
+                        return false;
+                    }
+                    if i > removed {
+                        *x = serde_json::Value::from((i - 1) as u64);
+                    }
+                } else if !remap_value(x, removed) {
+                    return false;
+                }
+            }
+            true
+        }
+        serde_json::Value::Array(a) => a.iter_mut().all(|x| remap_value(x, removed)),
+        _ => true,
+    }
+}
+
+/// drop the creation of pair `j` (event `at`), every event that refers to it, and shift the
+/// indices of later pairs down
+fn drop_pair(events: &[Event], at: usize, j: usize) -> Vec<Event> {
+    let mut out = vec![];
+    for (i, e) in events.iter().enumerate() {
+        if i == at {
+            continue;
+        }
+        let mut v = serde_json::to_value(e).unwrap();
+        if !remap_value(&mut v, j) {
+            continue;
+        }
+        if let Ok(e2) = serde_json::from_value::<Event>(v) {
+            out.push(e2);
+        }
+    }
+    out
+}
+
+fn collect_amounts(v: &serde_json::Value, out: &mut Vec<String>) {
+    match v {
+        serde_json::Value::Object(m) => {
+            for (k, x) in m.iter() {
+                if matches!(k.as_str(), "amount" | "sent" | "min_receive" | "min0" | "min1") {
+                    if let Some(s) = x.as_str() {
+                        if s.parse::<u128>().map_or(false, |n| n > 1) && !out.contains(&s.to_string()) {
+                            out.push(s.to_string());
+                        }
+                    }
+                }
+                collect_amounts(x, out);
+            }
+        }
+        serde_json::Value::Array(a) => a.iter().for_each(|x| collect_amounts(x, out)),
+        _ => {}
+    }
+}
+
+fn replace_amount(v: &mut serde_json::Value, from: &str, to: &str) {
+    match v {
+        serde_json::Value::Object(m) => {
+            for (k, x) in m.iter_mut() {
+                if matches!(k.as_str(), "amount" | "sent" | "min_receive" | "min0" | "min1") && x.as_str() == Some(from) {
+                    *x = serde_json::Value::String(to.to_string());
+                } else {
+                    replace_amount(x, from, to);
+                }
+            }
+        }
+        serde_json::Value::Array(a) => a.iter_mut().for_each(|x| replace_amount(x, from, to)),
+        _ => {}
+    }
+}
+
+/// shrink amounts: every occurrence of one numeric value inside an event (declared amount,
+/// attached funds, amount sent) is replaced together, toward round and small values
+fn shrink_amounts(world: &WorldCfg, events: &[Event], prop: &str, clause: &str, cause: &str, deadline: Instant) -> Vec<Event> {
+    let mut cur = events.to_vec();
+    for i in 0..cur.len() {
+        let mut vals = vec![];
+        collect_amounts(&serde_json::to_value(&cur[i]).unwrap(), &mut vals);
+        for val in vals {
+            let mut v: u128 = val.parse().unwrap();
+            let mut from = val.clone();
+            for _ in 0..12 {
+                if Instant::now() > deadline {
+                    return cur;
+                }
+                let digits = v.to_string().len() as u32;
+                let round = 10u128.pow(digits - 1);
+                let cands: Vec<u128> = [round, v / 2, v - v % round.max(1)]
+                    .into_iter()
+                    .filter(|c| *c >= 1 && *c < v)
+                    .collect();
+                let mut progressed = false;
+                for c in cands {
+                    let mut j = serde_json::to_value(&cur[i]).unwrap();
+                    replace_amount(&mut j, &from, &c.to_string());
+                    if let Ok(e2) = serde_json::from_value::<Event>(j) {
+                        let mut cand = cur.clone();
+                        cand[i] = e2;
+                        if reproduces(world, &cand, prop, clause, cause).map_or(false, |f| f.seq as usize == cand.len() - 1) {
+                            cur = cand;
+                            from = c.to_string();
+                            v = c;
+                            progressed = true;
+                            break;
+                        }
+                    }
+                }
+                if !progressed {
+                    break;
+                }
+            }
+        }
+    }
+    cur
+}
+
 /// delta debugging over the event list, then drop every event after the violating step
 pub fn minimise(world: &WorldCfg, events: &[Event], v: &Violation) -> Vec<Event> {
     let (prop, clause, cause) = (v.prop.as_str(), v.clause.as_str(), v.cause.as_str());
@@ -202,6 +345,41 @@ pub fn minimise(world: &WorldCfg, events: &[Event], v: &Violation) -> Vec<Event>
             break;
         }
     }
+    // drop whole pairs that the violation does not need (with index remapping), then one more
+    // single-event pass
+    loop {
+        let ords = pair_ordinals(world, &cur);
+        let mut changed = false;
+        for (at, o) in ords.iter().enumerate().rev() {
+            if let Some(j) = o {
+                let cand = drop_pair(&cur, at, *j);
+                if let Some(f) = reproduces(world, &cand, prop, clause, cause) {
+                    let mut cand = cand;
+                    cand.truncate(f.seq as usize + 1);
+                    cur = cand;
+                    changed = true;
+                    break;
+                }
+            }
+        }
+        if !changed || Instant::now() > deadline {
+            break;
+        }
+    }
+    let mut i = 0;
+    while i < cur.len() && Instant::now() <= deadline {
+        let mut cand = cur.clone();
+        cand.remove(i);
+        if !cand.is_empty() {
+            if let Some(f) = reproduces(world, &cand, prop, clause, cause) {
+                cand.truncate(f.seq as usize + 1);
+                cur = cand;
+                continue;
+            }
+        }
+        i += 1;
+    }
+    cur = shrink_amounts(world, &cur, prop, clause, cause, deadline);
     // per-event simplification: drop optional fields
     for i in 0..cur.len() {
         let mut cand = cur.clone();
@@ -259,7 +437,7 @@ fn repo_rev() -> String {
 fn quick_runs(prop: &str) -> u64 {
     match prop {
         "C17" | "C19" | "C16" => 1500,
-        "C14" => 1500,
+        "C14" => 800,
         "C11" | "C13" => 3000,
         _ => 4000,
     }
@@ -370,7 +548,8 @@ pub fn cmd_check(prop: &str, tier: &str, rest: &[String]) -> i32 {
         }
     }
     for (id, (cnt, what)) in &known_hits {
-        println!("KNOWN-FINDING: property={} {} [{} x{}]", prop, what, id, cnt);
+        let short: String = what.chars().take(180).collect();
+        println!("KNOWN-FINDING: property={} {} [{} matched {} steps]", prop, short, id, cnt);
     }
     let mut exit = 0;
     let mut violation_lines = vec![];
@@ -555,12 +734,12 @@ fn relevant_faults(prop: &str) -> Vec<&'static str> {
 fn case_rule(prop: &str) -> String {
     let tuple = match prop {
         "C01" => "(pair kind, path exec/hook/route, lg x /8, lg y /8, commission class, rounding-window class, swaps in tx)",
-        "C02" => "(pair kind, delivered-vs-named class, named asset class, number of attached coins, outcome)",
+        "C02" => "(pair kind, named asset class, entry and delivered-vs-named class incl. amount relation and extra coins, receiver class, outcome) - counted for every outcome, the cell is a point of the enumerated message-shape cross product",
         "C03" => "(pair kind, operation kind, outcome, F4 injected?, lg r0 /16, lg r1 /16, lg S /16)",
         "C04" => "(pair kind, lg r /8, lg S /8, lg a /8, residue class of r*a mod S)",
         "C05" => "(pair kind, first/later, minimising side or whitelist/minimum class, lg deposits /8, lg reserves /8, lg S /8)",
         "C06" => "(source query/exec, lg x /8, lg y /8, lg a /8, commission class, remainder classes of the two 18-digit divisions)",
-        "C07" => "(operation kind, sender role, number of distinct receivers)",
+        "C07" => "(operation kind, pair kind or hop count, sender role, receiver class, number of changed balances)",
         "C09" => "(entry point, pair kind, declared class, attached class, extra coins, outcome)",
         "C10" => "(guard form, sign and size of decimals difference, boundary offset class in atoms, outcome ok/guard/other)",
         "C11" => "(hops, entry, asset-kind sequence, minimum_receive minus quote class, recipient class, F4?, outcome)",
